@@ -7,6 +7,7 @@ CONSTANTS
   Offs = {0}
   Rtds = {1}
   DistinctOnly = FALSE
+  Clk0s = {1}
   MaxEv = 5
   FilterAverage = 20
 INVARIANTS Emit
